@@ -36,6 +36,7 @@ type Engine struct {
 	loadErrs  []string
 	constGlobals map[*ssa.Global]*Val
 	overlay      map[string][]byte
+	curProp      string
 }
 
 // vctx: everything produced while verifying one function
